@@ -807,6 +807,13 @@ def two_messages_possible(buf):
 # ---------------------------------------------------------------------------------------------- Content-Length that must be refused
 
 _DIGITS = re.compile(rb'^[0-9]+$')
+_ODD = re.compile(rb'\r(?!\n)|(?<!\r)\n|[\x00-\x08\x0b\x0c\x0e-\x1f\x7f]')
+
+
+def _plain(block):
+    """The reference readings only speak about header blocks made of CRLF-terminated lines without control characters
+    (bare CR / LF and other controls are the business of other clauses and of the server's own line splitting)."""
+    return not (b'\\' in block or _ODD.search(block) or block.startswith(b'\r\n'))
 
 
 def bad_content_length(buf):
@@ -824,7 +831,7 @@ def bad_content_length(buf):
     if end < 0:
         return None
     block = buf[:end]
-    if b'\\' in block or b'\x00' in block or block.startswith(b'\r\n'):
+    if not _plain(block):
         return None
     lines = block.split(b'\r\n')[1:]
     values = []
@@ -867,7 +874,7 @@ def bad_chunk_size(buf):
     if end < 0:
         return None
     block = buf[:end]
-    if b'\\' in block or b'\x00' in block or block.startswith(b'\r\n'):
+    if not _plain(block):
         return None
     te = []
     for ln in block.split(b'\r\n')[1:]:
@@ -886,6 +893,8 @@ def bad_chunk_size(buf):
         if eol < 0:
             return None
         token = buf[pos:eol].split(b';', 1)[0].strip(b' \t')
+        if _ODD.search(buf[pos:eol]):
+            return None
         if not _HEX.match(token):
             return 'chunk-size %r is not 1*HEXDIG' % token
         n = int(token, 16)
@@ -911,7 +920,7 @@ def bad_request_line(buf):
     if end < 0:
         return None
     line = buf[:end].split(b'\r\n', 1)[0]
-    if not line or b'\\' in line or b'\x00' in line or b'\t' in line or any(c >= 0x80 or c < 0x20 for c in line):
+    if not line or b'\\' in line or b'\x00' in line or b'\t' in line or any(c >= 0x80 or c < 0x20 for c in line) or not _plain(buf[:end]):
         return None
     parts = line.split(b' ')
     if len(parts) != 3 or not all(parts):
@@ -932,7 +941,7 @@ def bad_header_line(buf):
     if end < 0:
         return None
     block = buf[:end]
-    if b'\\' in block or b'\x00' in block or block.startswith(b'\r\n'):
+    if not _plain(block):
         return None
     for i, ln in enumerate(block.split(b'\r\n')[1:]):
         if ln[:1] in (b' ', b'\t') and i > 0:
@@ -951,9 +960,11 @@ def answer_due(buf):
     the statement's anchors name (unicode_escape) - spells a body framing header (Content-Length / Transfer-Encoding).
     Such a message has no body, well-formed or not: "waits for more data" is no longer one of the permitted outcomes."""
     end = buf.find(b'\r\n\r\n')
-    if end < 0 or buf.startswith(b'\r\n'):
-        return False
+    if end < 0 or buf.startswith(b'\r\n') or end + 4 != len(buf):
+        return False        # bytes behind the blank line: a further message in the same read (pipelining) is not judged
     block = buf[:end]
+    if _ODD.search(block):
+        return False
     texts = [block.decode('latin-1').lower()]
     if b'\\' in block:
         try:
